@@ -127,7 +127,7 @@ def check_s2k_codec(rep, prog, rid):
                               where=wr.where, scenario=spec)
         # reader
         scr = Scenario(bind={'self.specifier': ec, 'self.usage': Const(254)}, axioms={'bool(self)': True},
-                       args={'iv': Const(True)}, inline=lambda f: False, forward_stores=False)
+                       args={'iv': Const(True)}, inline=lambda f: False, forward_stores=False, model_del=False)
         outs = Interp(prog, scr).run(rd)
         if len(outs) != 1:
             raise AnalysisError('String2Key.parse: %d paths for %s' % (len(outs), spec))
